@@ -19,9 +19,10 @@ def run(ctx, config="all"):
     if any(o.status == "violation" for o in rep.obligations):
         return rep
     # ---- (a) digit range check
-    v = prog.view("crate::parse_digits")
     found = False
-    for bi in sorted(v.reachable):
+    cgm = ir.CallGraph(prog)
+    digit_fns = sorted(k for k in cgm.closure(["crate::Transformer::transform_literal"]) if prog.bodies[k]["kind"] in ("Fn", "AssocFn", "Closure"))
+    for v, bi in ((vv, bb) for vv in (prog.view(k) for k in digit_fns) for bb in sorted(vv.reachable)):
         t = v.blocks[bi]["term"]
         if t["t"] != "switch" or not (t["discr"].get("o") in ("copy", "move") and not t["discr"]["p"]):
             continue
@@ -63,7 +64,7 @@ def run(ctx, config="all"):
                           "which accepts a digit equal to the base: uint!(1a_U8) builds with the value 20" % (op, err_truth))
     if not found:
         rep.violation("parse_digits|range-check-missing", "ruint-macro/src/lib.rs", "no comparison between the digit and "
-                      "the base found in parse_digits: out-of-range digits are not rejected")
+                      "the base found in any function reachable from transform_literal: out-of-range digits are not rejected")
     # ---- (b) error discipline in transform_tree
     v = prog.view("crate::Transformer::transform_tree")
     where = "%s:%s" % (v.body["file"], v.body["line"])
